@@ -996,7 +996,11 @@ class C20(Prop):
         sc = list(scalars)
         g.r.shuffle(sc)
         stream = []
+        defaults = {'pad': '0', 'ntp': '0', 'rtp': '0', 'pc': '0', 'oc': '0', 'subtype': '0', 'data': '-', 'count': '0',
+                    'sender': '0', 'media': '0'}
         for name, val, junk in sc:
+            if str(val) == defaults.get(name) and g.chance(0.6):
+                continue        # never call the setter: the final value is the constructor's default
             if g.chance(0.4):
                 stream.append(('s', '%s %s' % (name, junk())))
             stream.append(('s', '%s %s' % (name, val)))
@@ -1032,7 +1036,7 @@ class C20(Prop):
                 nb = g.pick([0, 1, 2, 3])
                 rbs = [g.rb() for _ in range(nb)]
                 if k == 'sr':
-                    ntp, rtp, pc, oc = g.u64(), g.u32(), g.u32(), g.u32()
+                    ntp, rtp, pc, oc = [0 if g.chance(0.25) else v for v in (g.u64(), g.u32(), g.u32(), g.u32())]
                     member = ('sr %d %d %d %d %d %d %d %s' % (pad, ssrc, ntp, rtp, pc, oc, nb, ' '.join(rbs))).strip()
                     scal = [('pad', pad, jp), ('ntp', ntp, lambda: str(g.u64())), ('rtp', rtp, j32), ('pc', pc, j32), ('oc', oc, j32)]
                     init = 'sr %d' % ssrc
@@ -1092,7 +1096,8 @@ class C20(Prop):
                 scal = [('pad', pad, jp), ('count', m[3], lambda: str(g.r.randrange(32)))]
                 adds = []
             else:
-                sender, media = g.ssrc(), g.ssrc()
+                sender = 0 if g.chance(0.3) else g.ssrc()
+                media = 0 if g.chance(0.3) else g.ssrc()
                 fk = g.pick(['nack', 'fir', 'sli', 'rpsi', 'pli'])
                 kind = 't' if fk == 'nack' else 'p'
                 own = g.pick(['own', 'bor'])
